@@ -160,9 +160,35 @@ def dirsListing (fs : FS) (names : String) : List String :=
   let dirs : List Path := [] :: (fs.ents.filter (fun e => e.2 == .dir)).map (·.1)
   (dirs.filter (fun d => showNames (children fs d) == names)).map (fun d => strOfBytes (strOfPath d))
 
+/-- Did the implementation let the request past `validatePath` (anything but a validation refusal)? -/
+def implAccepted (out : List String) : Bool :=
+  match out with
+  | "err" :: cls :: _ => !(cls.startsWith "invalid-" || cls == "disabled" || cls == "pathrequired")
+  | "ok" :: _ => true
+  | _ => false
+
+/-- "accepted ⇒ enabled and lexically allowed", on the implementation's answer -/
+def lexicalVerdict (s : S) (op : String) (implOut : String) : Option String :=
+  match tokens op with
+  | kind :: ph :: nh :: _ =>
+    if ["val", "dl", "ul", "ls", "st", "cm", "rm"].contains kind then
+      match bytesOfHex ph, bytesOfHex nh with
+      | some praw, some pn =>
+        let path := unAt praw
+        if !implAccepted (tokens implOut) then none
+        else if kind != "val" && !s.cfg.enabled then some "fail accepted-while-disabled"
+        else if validatePath (mkNfc path (unAt pn)) s.cfg path != .ok then some "fail accepted-invalid-path"
+        else none
+      | _, _ => none
+    else none
+  | _ => none
+
 def spec (s : S) (op : String) (implOut : String) : S × String :=
   let (s', _) := step s op
   let verdict : String :=
+    match lexicalVerdict s op implOut with
+    | some v => v
+    | none =>
     match tokens op, tokens implOut with
     | "dl" :: _, ["ok", what] =>
       (match what.splitOn ":" with
